@@ -187,3 +187,25 @@ def rho_matrix_le(rho_t, m):
     """Tensor rho[a_0.., b_0..] -> matrix in little-endian order (qubit k of the list = bit k)."""
     perm = list(range(m - 1, -1, -1)) + list(range(2 * m - 1, m - 1, -1))
     return np.transpose(rho_t, perm).reshape(1 << m, 1 << m)
+
+
+INV_NAME = {"id": "id", "i": "i", "x": "x", "y": "y", "z": "z", "h": "h", "s": "sdg", "sdg": "s", "t": "tdg", "tdg": "t",
+            "sx": "sxdg", "sxdg": "sx", "cx": "cx", "cz": "cz", "cy": "cy", "swap": "swap"}
+
+
+def inverse_ops(ops):
+    """instruction list of the inverse circuit (reversed order, each gate inverted)"""
+    out = []
+    for op in reversed(ops):
+        name, qs = op[0], op[1]
+        if name in SKIP:
+            continue
+        if name in INV_NAME:
+            out.append((INV_NAME[name], qs, ()))
+        elif name in PARAM:
+            out.append((name, qs, (-op[2][0],)))
+        elif len(op) > 3 and op[3] is not None:
+            out.append((name + "_dg", qs, (), np.asarray(op[3]).conj().T))
+        else:
+            raise UnknownGate(name)
+    return out
